@@ -191,6 +191,8 @@ def main(argv=None) -> int:
 
 
 if __name__ == "__main__":
+    import signal
+    signal.signal(signal.SIGPIPE, signal.SIG_DFL)
     sys.stdout.reconfigure(line_buffering=True)
     rc = main()
     sys.stdout.flush()
